@@ -21,7 +21,7 @@ LEVEL = "model_checking"
 RULE = (
     "SEL: chain skeleton m>a>b>c with 0..2 guarded candidates per level (bounded total) and parallel skeleton "
     "m>p(r1{x1,x2}, r2{y1,y2}[, r3]) + out with optional handlers on x1,y1,r1,r2,p,m (targetless / sibling / leaving "
-    "the parallel state); every guard valuation in {true,false,raise}^n; configurations reached by set-up events; "
+    "the parallel state); each machine once with one guard name per candidate and once with ONE guard name shared by all candidates (params differ); every guard valuation in {true,false,raise}^n; configurations reached by set-up events; "
     "each case = fresh interpreter + send(E) + can(E); oracle = reference nominator; NOOP: BFS closure of TREE(N) "
     "universal machines with the full event alphabet (active-source, inactive-source and unknown events) per state; "
     "distinct_nontrivial = distinct (machine shape, valuation, configuration) cases + distinct (machine, state, event) "
@@ -68,8 +68,10 @@ def par_specs(regions: int) -> List[Any]:
     return out
 
 
-def build_sel(spec):
-    """Returns (cfg, candidates) with candidates = list of dict(src, name, guard, target, order)."""
+def build_sel(spec, shared: bool = False):
+    """Returns (cfg, candidates) with candidates = list of dict(src, name, guard, target, order).
+    shared=True: every candidate uses the SAME guard name 'gshared' and differs only in its params - a candidate must be
+    judged by its own guard (name AND params), not by whatever another candidate with that name evaluated to."""
     kind, par = spec
     cands: List[Dict[str, Any]] = []
 
@@ -77,7 +79,7 @@ def build_sel(spec):
         name = f"{src.replace('.', '_')}_{i}"
         c = dict(src=src, name=name, guard=f"g_{name}", target=target, idx=len(cands))
         cands.append(c)
-        t: Dict[str, Any] = {"guard": c["guard"], "actions": [f"tr:{name}"]}
+        t: Dict[str, Any] = {"guard": ({"type": "gshared", "params": {"k": c["guard"]}} if shared else c["guard"]), "actions": [f"tr:{name}"]}
         if target:
             t["target"] = target
         return t
@@ -150,7 +152,12 @@ def leaves_of(conf: List[str]) -> List[str]:
 
 
 def run_sel(spec, tier, res, viol):
-    cfg, cands, setups = build_sel(spec)
+    for shared in (False, True):
+        _run_sel(spec, tier, res, viol, shared)
+
+
+def _run_sel(spec, tier, res, viol, shared):
+    cfg, cands, setups = build_sel(spec, shared)
     gnames = [c["guard"] for c in cands]
     setup_sets: List[Tuple[str, ...]] = [()]
     if spec[0] in ("par", "par3"):
@@ -160,6 +167,11 @@ def run_sel(spec, tier, res, viol):
             setup_sets = [s for n in range(len(setups) + 1) for s in itertools.combinations(setups, n)]
     for engine in ENGINES:
         h = Harness(cfg, guards=gnames, with_plugin=True, budget=None)
+        if shared:
+            def gshared(ctx, event, params=None, _h=h):
+                return _h.rec.guard(params["k"])(ctx, event, params)
+
+            h._kw["extra_guards"] = {"gshared": gshared}
         vset = VALS if (tier == "thorough" or len(gnames) <= 4 or spec[0] == "chain") else (True, False)
         for vals in itertools.product(vset, repeat=len(gnames)):
             val = dict(zip(gnames, vals))
@@ -181,7 +193,7 @@ def run_sel(spec, tier, res, viol):
                     seg = d.rec.since(mark)
                     fired = [e[1][3:] for e in seg if e[0] == "A" and e[1].startswith("tr:")]
                     res["evaluations"] += 1
-                    res["distinct"].append(hash((repr(spec), vals, ss)))
+                    res["distinct"].append(hash((repr(spec), vals, ss, shared)))
                     probs = []
                     if err is not None:
                         probs.append(("exception", repr(err)))
@@ -212,11 +224,11 @@ def run_sel(spec, tier, res, viol):
                             probs.append(("no-nominee-but-something-ran", f"{[e[:2] for e in seg if e[0] in ('A','TR','EV')]}"))
                     for clause, detail in probs:
                         viol.append(dict(
-                            signature=f"C02|{clause}|{spec[0]}",
+                            signature=f"C02|{clause}|{spec[0]}{'|same-guard-name' if shared else ''}",
                             clause=clause,
-                            what=f"{engine}: {clause}: {detail}; spec {spec} valuation {val} setup {ss} configuration {conf}",
+                            what=f"{engine}: {clause}: {detail}; spec {spec}{' (all candidates share the guard name, params differ)' if shared else ''} valuation {val} setup {ss} configuration {conf}",
                             size=len(gnames) * 10 + len(ss),
-                            replay=dict(kind="sel", spec=spec, engine=engine, vals=list(vals), setup=list(ss), tier=tier),
+                            replay=dict(kind="sel", spec=spec, engine=engine, vals=list(vals), setup=list(ss), tier=tier, shared=shared),
                         ))
                 finally:
                     d.close()
